@@ -27,7 +27,7 @@ RULE = (
     "registered before pickling (register + list overload), abstract with an overload, nocache, self-referential overload graph, call-counting dataset} and decorator form "
     "{plain, dispatch, dependency}; protocols 0..5; round trip in-process and into a fresh interpreter (subprocess "
     "started per protocol); dictionaries = product A x B x D; after loading: evaluate, keys, then register / overload a "
-    "new alias and evaluate it (dispatch-less datasets refuse like the original); originals observed before any "
+    "new alias and evaluate it (dispatch-less datasets refuse like the original); cold round trips (a fresh interpreter pickles every fixture before anything was evaluated, observes the copy twice, then the original); originals observed before any "
     "pickling and re-checked after all round trips; the fresh interpreter runs with another hash seed and must "
     "serve stored values without running bodies.  Non-trivial = (dataset, protocol, process, dictionary) with a successful evaluation."
 )
@@ -99,10 +99,49 @@ def child_main(path):
     print("RESULT " + json.dumps(res))
 
 
+def cold_main(proto):
+    """Runs in a freshly started interpreter: every fixture is pickled BEFORE anything was evaluated (all
+    caches still empty), loaded back, and the copy is observed first; the original is observed afterwards."""
+    mod = importlib.import_module(FIX)
+    out = {}
+    for name in mod.EXPLICIT:
+        ds = getattr(mod, name)
+        try:
+            loaded = pickle.loads(pickle.dumps(ds, protocol=proto))
+        except BaseException as e:  # noqa
+            out[name] = {"error": f"{type(e).__name__}: {e}"}
+            continue
+        got = [[outcome(lambda: loaded.evaluate(copy.deepcopy(o))), outcome(lambda: sorted(loaded.keys(copy.deepcopy(o))))] for o in dicts()]
+        again = [[outcome(lambda: loaded.evaluate(copy.deepcopy(o))), outcome(lambda: sorted(loaded.keys(copy.deepcopy(o))))] for o in dicts()]
+        want = [[outcome(lambda: ds.evaluate(copy.deepcopy(o))), outcome(lambda: sorted(ds.keys(copy.deepcopy(o))))] for o in dicts()]
+        out[name] = {"got": got, "again": again, "want": want}
+    print("RESULT " + json.dumps(out))
+
+
 def run_case(case):
     res = {"failures": [], "evaluations": 0, "nontrivial": 0, "samples": [], "decorator_form_unpicklable": 0}
     _, proto = case
     mod = importlib.import_module(FIX)
+    # cold round trips: a fresh interpreter pickles every fixture before anything was evaluated
+    env0 = dict(os.environ)
+    env0["LABMC_PINNED"] = "1"
+    root0 = os.path.dirname(os.path.dirname(os.path.dirname(os.path.abspath(__file__))))
+    p0 = subprocess.run([sys.executable, "-B", "-m", "labmc.checks.c20", "--cold", str(proto)], cwd=root0, env=env0, capture_output=True, text=True, timeout=300)
+    line0 = [l for l in p0.stdout.splitlines() if l.startswith("RESULT ")]
+    if p0.returncode != 0 or not line0:
+        res["failures"].append({"sig": f"C20|cold-interpreter-crashed|protocol={proto}", "what": f"cold round trip: the interpreter crashed with pickle protocol {proto}", "detail": (p0.stdout + p0.stderr)[-600:], "case": ("proto", proto)})
+    else:
+        for name, r in json.loads(line0[0][7:]).items():
+            res["evaluations"] += 2 * len(dicts())
+            if "error" in r:
+                kind, d = "cold-round-trip-failed", r["error"]
+            elif r["got"] != r["want"]:
+                kind, d = "cold-round-trip-changed-behaviour", _diff(r["want"], r["got"])
+            elif r["again"] != r["want"]:
+                kind, d = "cold-round-trip-changed-behaviour-on-repeat", _diff(r["want"], r["again"])
+            else:
+                continue
+            res["failures"].append({"sig": f"C20|{kind}|{name}|protocol={proto}", "what": f"{kind}: fixture dataset {name} pickled before anything was evaluated, protocol {proto}", "detail": d, "case": ("proto", proto)})
 
     def fail(kind, name, d):
         res["failures"].append({"sig": f"C20|{kind}|{name}|protocol={proto}", "what": f"{kind}: fixture dataset {name} with pickle protocol {proto}", "detail": d, "case": ("proto", proto)})
@@ -242,4 +281,7 @@ if __name__ == "__main__":
     from .. import runner
 
     runner.pin_environment(os.environ.get("PYTHONHASHSEED", "0"), module="labmc.checks.c20")
-    child_main(sys.argv[1])
+    if sys.argv[1] == "--cold":
+        cold_main(int(sys.argv[2]))
+    else:
+        child_main(sys.argv[1])
